@@ -1,3 +1,4 @@
+import RossModel.Lemmas.Event
 import RossModel.Lemmas.Layout
 /-!
 # C11 — Event encodings are the published byte layouts, and decoders read exactly those
@@ -28,5 +29,10 @@ theorem C11_refDecode_agrees (k : Kind) (p : Packet) (e : Event) (h : refDecode 
 /-- C11: the reference decoder accepts every published encoding (so agreement with it is not vacuous) -/
 theorem C11_refDecode_encode (pad : Pad) (e : Event) (h : e.WF) : refDecode e.kind (encode pad e) = some e :=
   Ross.refDecode_encode pad e h
+
+/-- the event codes are the published table `0x0000 … 0x000f`, pairwise distinct -/
+theorem C11_codes (k : Kind) : k.code = publishedCode k := Ross.code_published k
+
+theorem C11_codes_injective (k₁ k₂ : Kind) (h : k₁.code = k₂.code) : k₁ = k₂ := Ross.code_injective k₁ k₂ h
 
 end Ross.Props
